@@ -194,7 +194,32 @@ func (n *node) closeReal() {
 	case n.fctl != nil:
 		n.fctl.Close()
 	case n.mon != nil:
-		n.mon.Close()
+		closeMonitorBounded(n.mon, n.cb)
+	}
+}
+
+// closeMonitorBounded calls Monitor.Close() without ever blocking the harness
+// on it for good: kcache's Close() only asks the subscription to end, but a
+// Close() that waits for the monitor's goroutine would wait for as long as the
+// handler is blocked by the harness.  Returns false if Close() has not
+// returned within the wedge bound although no callback is being held.
+func closeMonitorBounded(m kcache.Monitor, cb *cbLog) bool {
+	done := make(chan struct{})
+	go func() { m.Close(); close(done) }()
+	select {
+	case <-done:
+		return true
+	case <-time.After(wedgeBoundNow()):
+	}
+	if cb != nil && cb.blocked() {
+		return true // it may legitimately be waiting for the callback the harness holds
+	}
+	select {
+	case <-done:
+		return true
+	case <-time.After(wedgeBoundNow()):
+		setWedgeSeen()
+		return false
 	}
 }
 
